@@ -343,7 +343,10 @@ func (o *Operator) handleCheckpointBarrier(ctx context.Context, senderID string,
 	}
 
 	if o.checkpoint.hasAllBarriers() {
-		o.processEventBatch(ctx, batching.CurrentBatch) // Must flush any pending events before checkpointing
+		// Must flush any pending events before checkpointing
+		if err := o.processEventBatch(ctx, batching.CurrentBatch); err != nil {
+			return err
+		}
 		cp, err := o.db.Checkpoint(o.checkpoint.checkpointID)()
 		if err != nil {
 			return err
